@@ -16,23 +16,23 @@ import (
 )
 
 type Engine struct {
-	prog     *ssa.Program
-	pkgs     []*packages.Package
-	ssaPkgs  map[string]*ssa.Package
-	mu       sync.Mutex
-	fnInfos  sync.Map // *ssa.Function -> *fnInfo
-	rtPkg    *ssa.Package // verifrt
-	stubMap  map[string]string // qualified function -> replacement (verifrt function name or qualified)
-	blackhole []string
-	constCache sync.Map // *ssa.Const -> Value
+	prog        *ssa.Program
+	pkgs        []*packages.Package
+	ssaPkgs     map[string]*ssa.Package
+	mu          sync.Mutex
+	fnInfos     sync.Map          // *ssa.Function -> *fnInfo
+	rtPkg       *ssa.Package      // verifrt
+	stubMap     map[string]string // qualified function -> replacement (verifrt function name or qualified)
+	blackhole   []string
+	constCache  sync.Map // *ssa.Const -> Value
 	runtimeErrT types.Type
-	trace    bool
-	sharedInit sync.Map // pkg path -> *sharedGlobals
+	trace       bool
+	sharedInit  sync.Map // pkg path -> *sharedGlobals
 	sharedLocks sync.Map
-	fmtErrT  types.Type
-	env      map[string]string
-	maxprocs int
-	tier     string
+	fmtErrT     types.Type
+	env         map[string]string
+	maxprocs    int
+	tier        string
 }
 
 type fnInfo struct {
@@ -45,20 +45,20 @@ type fnInfo struct {
 }
 
 type frame struct {
-	x         *Exec
-	caller    *frame
-	fn        *ssa.Function
-	info      *fnInfo
-	block     *ssa.BasicBlock
-	prevBlock *ssa.BasicBlock
-	env       []Value
-	locals    []Value
-	defers    *deferred
-	result    Value
-	panicking bool
-	panicVal  interface{}
-	curInstr  ssa.Instruction
-	visits    map[*ssa.BasicBlock]int
+	x              *Exec
+	caller         *frame
+	fn             *ssa.Function
+	info           *fnInfo
+	block          *ssa.BasicBlock
+	prevBlock      *ssa.BasicBlock
+	env            []Value
+	locals         []Value
+	defers         *deferred
+	result         Value
+	panicking      bool
+	panicVal       interface{}
+	curInstr       ssa.Instruction
+	visits         map[*ssa.BasicBlock]int
 	deferStackCell *deferred
 }
 
